@@ -283,8 +283,7 @@ def _len_pred(tests, length):
     return val
 
 
-def rule_r4(ctx):
-    rid = "C04.R4"
+def rule_r4(ctx, rid="C04.R4"):
     ctx.r.rule(rid, "single dispatch: add_task(self) only under the requests lock; I/O side iff the queue length after the append is 1; worker side iff the length after the pop is >= 1")
     p = ctx.p
     cg = get_callgraph(p)
